@@ -15,7 +15,7 @@ from world import World
 
 PID = "C17"
 LEVEL = "exploration"
-RULE = ("Hypothesis cases {config, splits per level 2..8, per-split limit L (not block aligned), program}: the same program (file-system "
+RULE = ("Hypothesis cases {config, splits per level 1..8 (at least one level split), per-split limit L (not block aligned), program}: the same program (file-system "
         "steps growing and shrinking the array across split boundaries, syncs incl. -F/-R/-B, scrub, fix after deleting one split file or "
         "all of them) is executed on twin arrays: A with one parity file per level, B with the split layout and --test-parity-limit. After "
         "every command: recorded split sizes are block multiples and the files are at least that long; the concatenation of the splits "
@@ -45,7 +45,11 @@ def decode_case(raw):
     cfg["fake_uuid"] = False
     cfg["hash"] = cfg["hash"] or "spooky2"
     bs, nd = cfg["bs_kib"] * 1024, cfg["ndisks"]
-    splits = [2 + (nsp[l % len(nsp)] % 7) for l in range(cfg["levels"])]
+    # 1..8 files per level: one level in eight keeps a single file beside split ones (at least one level is always split, which is
+    # what makes the content file record per-split sizes for every level)
+    splits = [1 if nsp[l % len(nsp)] % 8 == 7 else 2 + (nsp[l % len(nsp)] % 7) for l in range(cfg["levels"])]
+    if max(splits) < 2:
+        splits[-1] = 2
     limit = (2 + lim[0] % 10) * bs + lim[1] * 7 % bs
     steps = []
     for sel, t in prog:
@@ -64,7 +68,7 @@ def decode_case(raw):
 
 
 def strategy(tier):
-    return st.tuples(gen.CFG, st.lists(st.integers(0, 6), min_size=1, max_size=6), st.tuples(st.integers(0, 255), st.integers(0, 255)),
+    return st.tuples(gen.CFG, st.lists(st.integers(0, 7), min_size=1, max_size=6), st.tuples(st.integers(0, 255), st.integers(0, 255)),
                      st.lists(gen.STEP, min_size=3, max_size=10), st.lists(st.tuples(st.integers(0, 9), gen.STEP), min_size=4, max_size=30),
                      st.integers(0, 255)).map(decode_case)
 
